@@ -13,7 +13,11 @@
 (*   gen       generation of the widget state (bumped by every handled input / alarm / pipe) *)
 (*   drawn     generation shown by the last completed draw_screen                            *)
 (*   raised    exception kinds raised by callbacks                                           *)
-(*   term      the terminal (Terminal.tla) interpreting every byte written                   *)
+(*   term      the terminal (Terminal.tla) interpreting every byte written, in the order in  *)
+(*             which the bytes were written between the other events.  Its cells become      *)
+(*             unknown (Junk) whenever a full repaint is asked for (screen.clear(), a resize) *)
+(*             and blank when the screen buffer is switched, so a "draw" that leaves cells    *)
+(*             differing from the canvas drawn has not redrawn the screen                     *)
 EXTENDS Terminal, Sequences
 
 InitM(w, h) == [arrived |-> <<>>, held |-> <<>>, holdmax |-> 0, resize |-> FALSE, todo |-> <<>>, owe |-> <<>>, gen |-> 0, drawn |-> -1,
@@ -23,20 +27,42 @@ RM(m, w) == [m |-> m, why |-> w]
 NoResize(keys) == SelectSeq(keys, LAMBDA k : k # "window resize")
 IsRedrawCommand(k) == k = "ctrl l"
 
+\* what the terminal shows is no longer known: every cell becomes junk that no canvas contains, so only a complete repaint makes
+\* the screen show the canvas (as in RawDisplayTrace.tla)
+Junk == [c |-> 65533, fg |-> 5, bg |-> 3, fl |-> {4}, p |-> 0]
+Garble(t) == [t EXCEPT !.grid = [y \in 1..t.h |-> [x \in 1..t.w |-> Junk]]]
+Wipe(t) == [t EXCEPT !.grid = [y \in 1..t.h |-> BlankRow(t.w, -1)]]
 ApplyTok(t, e) ==
   CASE e.t = "put"    -> Put(t, e.c, e.w)
+    [] e.t = "zw"     -> PutZero(t, e.c)
     [] e.t = "cup"    -> CUP(t, e.x, e.y)
     [] e.t = "bs"     -> BS(t)
     [] e.t = "cr"     -> CR(t)
+    [] e.t = "lf"     -> Index(t)
+    [] e.t = "cuu"    -> CUU(t, e.n)
+    [] e.t = "cud"    -> CUD(t, e.n)
+    [] e.t = "cuf"    -> CUF(t, e.n)
+    [] e.t = "cub"    -> CUB(t, e.n)
     [] e.t = "sgr"    -> SGR(t, e.ps)
     [] e.t = "el"     -> EL(t, e.n)
+    [] e.t = "ed"     -> ED(t, e.n)
+    [] e.t = "ich"    -> ICH(t, e.n)
     [] e.t = "irm"    -> SetIRM(t, e.on)
     [] e.t = "so"     -> ShiftOut(t)
     [] e.t = "si"     -> ShiftIn(t)
     [] e.t = "desig"  -> Designate(t, e.g, e.set)
-    [] e.t = "decset" -> DecSet(t, e.n, e.on)
+    \* switching to the alternate screen buffer shows a fresh, blank screen; what comes back with the normal buffer is not the program's
+    [] e.t = "decset" -> IF e.n = 1049 THEN Wipe(DecSet(t, e.n, e.on)) ELSE DecSet(t, e.n, e.on)
+    \* model only: the bytes that paint these rows (code points) from the top left corner, whatever they are
+    [] e.t = "paint"  -> [t EXCEPT !.grid = [y \in 1..t.h |-> [x \in 1..t.w |->
+                              IF y <= Len(e.rows) /\ x <= Len(e.rows[y]) THEN [Blank(-1) EXCEPT !.c = e.rows[y][x]] ELSE @[y][x]]]]
     [] OTHER          -> t
-TokenKinds == {"put", "zw", "cup", "bs", "cr", "lf", "sgr", "el", "ed", "irm", "so", "si", "desig", "decset", "keypad", "cuu", "cud", "cuf", "cub"}
+TokenKinds == {"put", "zw", "cup", "bs", "cr", "lf", "sgr", "el", "ed", "ich", "irm", "so", "si", "desig", "decset", "keypad", "cuu", "cud", "cuf", "cub",
+               "paint"}
+\* the canvas handed to draw_screen (rows of code points) against the cells the terminal shows once the draw has written its bytes;
+\* a draw for a size the terminal no longer has (a resize is on its way) is not judged
+FitsTerm(t, rows) == Len(rows) = t.h /\ \A y \in 1..Len(rows) : Len(rows[y]) = t.w
+Shows(t, rows) == \A y \in 1..Len(rows) : \A x \in 1..Len(rows[y]) : t.grid[y][x].c = rows[y][x]
 
 Restored(m, e) ==
   IF m.term.modes \cap {1049} # {} THEN "normal_screen_buffer_restored"
@@ -45,13 +71,14 @@ Restored(m, e) ==
   ELSE IF 2004 \in m.term.modes THEN "bracketed_paste_off"
   ELSE IF 1004 \in m.term.modes THEN "focus_reporting_off"
   ELSE IF ~e.termios_same THEN "tty_settings_restored"
-  ELSE IF ~e.signals_same THEN "signal_handlers_restored"
+  ELSE IF e.sigs_after # e.sigs_before THEN "signal_handlers_restored"      \* dispositions of SIGWINCH, SIGTSTP, SIGCONT: "ign" | "dfl" | "py" (| "other")
   ELSE IF e.started THEN "display_stopped"
   ELSE "-"
 
 JudgeM(m, e) ==
   CASE e.t = "arrive" -> RM([m EXCEPT !.arrived = @ \o e.keys], "-")
-    [] e.t = "arrive_resize" -> RM([m EXCEPT !.resize = TRUE], "-")
+    [] e.t = "arrive_resize" -> RM([m EXCEPT !.resize = TRUE, !.term = Garble(Resize(@, e.w, e.h))], "-")
+    [] e.t = "clear" -> RM([m EXCEPT !.term = Garble(@)], "-")      \* screen.clear(): a full repaint is asked for (ctrl-L, stop)
     [] e.t = "partial" -> RM(m, "-")      \* the first bytes of an input were written to the terminal: no input event yet
     [] e.t = "arrive_held" -> RM([m EXCEPT !.held = e.keys, !.holdmax = e.wait], "-")
     [] e.t = "filter" ->     \* input_filter(keys): everything that arrived, in arrival order, exactly once
@@ -74,9 +101,12 @@ JudgeM(m, e) ==
          LET m2 == [m EXCEPT !.owe = <<>>]
          IN IF m.owe # <<e.key>> THEN RM(m2, "unhandled_exactly_when_widget_declined")
             ELSE RM(m2, "-")
-    [] e.t \in {"alarm", "pipe"} -> RM([m EXCEPT !.gen = @ + 1], "-")
+    [] e.t \in {"alarm", "pipe"} -> RM([m EXCEPT !.gen = IF e.changes THEN @ + 1 ELSE @], "-")      \* changes: the callback got to change the state (did not raise first)
     [] e.t = "swap" -> RM([m EXCEPT !.gen = @ + 1, !.top = e.w], "-")     \* the application replaced the topmost widget
-    [] e.t = "draw" -> RM([m EXCEPT !.drawn = e.gen], IF e.gen # m.gen /\ m.raised = {} THEN "draw_shows_current_state" ELSE "-")
+    [] e.t = "draw" -> RM([m EXCEPT !.drawn = e.gen],
+                          IF e.gen # m.gen /\ m.raised = {} THEN "draw_shows_current_state"
+                          ELSE IF m.raised = {} /\ FitsTerm(m.term, e.rows) /\ ~Shows(m.term, e.rows) THEN "screen_redrawn_from_widget_state"
+                          ELSE "-")
     [] e.t = "raise" -> RM([m EXCEPT !.raised = @ \cup {e.kind}, !.owe = <<>>, !.todo = <<>>], "-")
     [] e.t = "wait" ->
          LET blocks == e.ready = <<>> /\ e.timeout # 0 /\ (e.timeout = -1 \/ e.timeout > e.grace)
@@ -88,10 +118,13 @@ JudgeM(m, e) ==
             ELSE RM(m, "-")
     [] e.t = "advance" -> RM(m, IF m.raised # {} THEN "exception_ends_run" ELSE "-")
     [] e.t \in {"woke", "env_readable", "slow"} -> RM(m, "-")
+    \* run() is called again on the same MainLoop: what the first run raised is over; input that has not been read yet is still there;
+    \* the screen has to be drawn anew
+    [] e.t = "rerun" -> RM([m EXCEPT !.raised = {}, !.todo = <<>>, !.owe = <<>>, !.drawn = -1], "-")
     [] e.t = "run_end" ->
          IF e.outcome = "stuck" THEN RM(m, "run_never_ends")
          ELSE IF m.raised = {} THEN RM(m, "run_ended_without_exit")
-         ELSE IF e.outcome = "raise" /\ e.exc # "VfError" THEN RM(m, "exception_propagates_unchanged")
+         ELSE IF e.outcome = "raise" /\ e.exc # "VfError" THEN RM(m, "exception_propagates_unchanged")      \* "VfError": the very object raised
          ELSE IF "error" \in m.raised /\ "exit" \notin m.raised /\ e.outcome # "raise" THEN RM(m, "exception_propagates_unchanged")
          ELSE IF m.raised = {"exit"} /\ e.outcome # "return" THEN RM(m, "exit_ends_run_normally")
          ELSE RM(m, "-")
